@@ -289,7 +289,8 @@ def write_cfg(path, spec, constants, invariants=(), properties=(), view=None, po
         lines += [f"INIT {init_next[0]}", f"NEXT {init_next[1]}"]
     else:
         lines.append(f"SPECIFICATION {spec}")
-    lines.append("CONSTANTS")
+    if constants:
+        lines.append("CONSTANTS")
     for k, v in constants.items():
         if isinstance(v, tuple):
             lines.append(f"  {k} <- {v[1]}")
